@@ -274,8 +274,9 @@ def run(ctx):
                 ctx.violation("C07|%s|legacy|%s" % (cname, ol[1]), "a pre-1.4.0 dictionary does not load", {"class": cname})
             else:
                 ql = ol[1]
-                pr = {k: v for k, v in ref.items()}
-                got = outputs(ql, Q, timed)
+                # a legacy dictionary carries no n_obs (expected None below): normalised prediction is refused by design
+                pr = {k: v for k, v in ref.items() if k != "mean_normalized"}
+                got = {k: v for k, v in outputs(ql, Q, timed).items() if k != "mean_normalized"}
                 if type(ql) is not type(p) or ql.n_obs is not None or same_outputs(pr, got):
                     ctx.violation("C07|%s|legacy" % cname, "a pre-1.4.0 dictionary loads to a different predictor",
                                   {"class": cname, "n_obs": repr(ql.n_obs), "methods_differing": same_outputs(pr, got)})
